@@ -87,6 +87,10 @@ type EPConf struct {
 	// certificate are appended to the first certificate's chain (a Certificate message above the record limit).
 	OuterPMTU int `json:"outer_pmtu,omitempty"`
 	ChainPad  int `json:"chain_pad,omitempty"`
+	// CertVia: how the key pairs in Certs reach the configuration - 0 all static (Config.Certificates), 1 all
+	// through the callbacks (server: GetCertificate / GetKECertificate, client: GetClientCertificate /
+	// GetClientKECertificate), 2 the first static and the second through its callback
+	CertVia int `json:"cert_via,omitempty"`
 	// ShortRand: Config.Rand hands out at most 3 bytes per Read call (which an io.Reader may do) and counts
 	// what it handed out in Env.RandBytes[name]
 	ShortRand bool `json:"short_rand,omitempty"`
@@ -203,6 +207,29 @@ func (e *EPConf) BuildTLCP(env *Env, name string) *tlcp.Config {
 		}
 		c.Certificates = append(c.Certificates, tlcp.Certificate{Certificate: chain, PrivateKey: e.key(env, n)})
 	}
+	if e.CertVia != 0 && len(c.Certificates) > 0 {
+		all := c.Certificates
+		isClient := e.ServerName != "" || len(e.Roots) > 0
+		keep := 0
+		if e.CertVia == 2 {
+			keep = 1
+		}
+		c.Certificates = append([]tlcp.Certificate(nil), all[:keep]...)
+		if keep == 0 {
+			if isClient {
+				c.GetClientCertificate = func(*tlcp.CertificateRequestInfo) (*tlcp.Certificate, error) { return &all[0], nil }
+			} else {
+				c.GetCertificate = func(*tlcp.ClientHelloInfo) (*tlcp.Certificate, error) { return &all[0], nil }
+			}
+		}
+		if len(all) > 1 {
+			if isClient {
+				c.GetClientKECertificate = func(*tlcp.CertificateRequestInfo) (*tlcp.Certificate, error) { return &all[1], nil }
+			} else {
+				c.GetKECertificate = func(*tlcp.ClientHelloInfo) (*tlcp.Certificate, error) { return &all[1], nil }
+			}
+		}
+	}
 	if e.Cache != "" {
 		c.SessionCache = env.TCaches[e.Cache]
 	}
@@ -256,6 +283,29 @@ func (e *EPConf) BuildDTLCP(env *Env, name string) *dtlcp.Config {
 			}
 		}
 		c.Certificates = append(c.Certificates, dtlcp.Certificate{Certificate: chain, PrivateKey: e.key(env, n)})
+	}
+	if e.CertVia != 0 && len(c.Certificates) > 0 {
+		all := c.Certificates
+		isClient := e.ServerName != "" || len(e.Roots) > 0
+		keep := 0
+		if e.CertVia == 2 {
+			keep = 1
+		}
+		c.Certificates = append([]dtlcp.Certificate(nil), all[:keep]...)
+		if keep == 0 {
+			if isClient {
+				c.GetClientCertificate = func(*dtlcp.CertificateRequestInfo) (*dtlcp.Certificate, error) { return &all[0], nil }
+			} else {
+				c.GetCertificate = func(*dtlcp.ClientHelloInfo) (*dtlcp.Certificate, error) { return &all[0], nil }
+			}
+		}
+		if len(all) > 1 {
+			if isClient {
+				c.GetClientKECertificate = func(*dtlcp.CertificateRequestInfo) (*dtlcp.Certificate, error) { return &all[1], nil }
+			} else {
+				c.GetKECertificate = func(*dtlcp.ClientHelloInfo) (*dtlcp.Certificate, error) { return &all[1], nil }
+			}
+		}
 	}
 	if e.Cache != "" {
 		c.SessionCache = env.DCaches[e.Cache]
